@@ -501,6 +501,54 @@ def _figures(tree):
     return f
 
 
+def _definition_figures(tree):
+    """Per-node index sets and costs straight from the definitions (independent of from_path / remove_ind):
+    cnt(node, ix) = occurrences of ix on the node's input tensors; a node keeps ix iff 0 < cnt < appearances(ix)
+    (appearances counts inputs and output); sliced/projected indices are dropped everywhere; the root keeps the
+    output; involved(node) = legs(left) | legs(right); size / flops = products of the sizes."""
+    inputs, output, size_dict = tree.inputs, tree.output, tree.size_dict
+    sliced = set(tree.sliced_inds)
+    app = {}
+    for t in inputs:
+        for ix in t:
+            app[ix] = app.get(ix, 0) + 1
+    for ix in output:
+        app[ix] = app.get(ix, 0) + 1
+    N = len(inputs)
+
+    def legs_of(node):
+        if len(node) == N:
+            return {ix for ix in output if ix not in sliced}
+        cnt = {}
+        for i in node:
+            for ix in inputs[i]:
+                if ix not in sliced:
+                    cnt[ix] = cnt.get(ix, 0) + 1
+        return {ix for ix, c in cnt.items() if c < app[ix]}
+
+    per = {}
+    tot_f = tot_w = 0
+    mx = 0
+    for p, (l, r) in tree.children.items():
+        lg = legs_of(p)
+        inv = legs_of(l) | legs_of(r)
+        size = 1
+        for ix in lg:
+            size *= size_dict[ix]
+        flops = 1
+        for ix in inv:
+            flops *= size_dict[ix]
+        per[",".join(map(str, sorted(p)))] = {"legs": sorted(lg), "involved": sorted(inv), "size": size, "flops": flops}
+        tot_f += flops
+        tot_w += size
+        mx = max(mx, size)
+    mult = 1
+    for ix, si in tree.sliced_inds.items():
+        if si.project is None:
+            mult *= size_dict[ix]
+    return per, {"flops": mult * tot_f, "write": mult * tot_w, "size": mx}, mult
+
+
 def _rebuild(ctg, tree):
     fresh = ctg.ContractionTree.from_path(tree.inputs, tree.output, tree.size_dict, path=tree.get_path())
     for ix, si in tree.sliced_inds.items():
@@ -542,6 +590,27 @@ def oracle_c04(ctg, tree, counters):
     if d:
         fields = sorted({x.split(":")[0].split(".")[-1] for x in d})
         bad.append(("figures-differ-from-rebuild", "; ".join(d[:6]), {"fields": fields}))
+    # the same figures straight from the definitions (a rebuild goes through the same remove_ind code as the subject)
+    try:
+        per_def, stats_def, mult_def = _definition_figures(copy.deepcopy(tree))
+        dd = []
+        for n, want in per_def.items():
+            got = fig["per_node"].get(n)
+            if got is None:
+                dd.append(f"node {{{n}}} missing")
+                continue
+            for q in ("legs", "involved", "size", "flops"):
+                if got[q] != want[q]:
+                    dd.append(f"node {{{n}}}.{q}: {got[q]} != definition {want[q]}")
+        if tree.N > 1 and fig["stats"] != stats_def:
+            dd.append(f"stats {fig['stats']} != definition {stats_def}")
+        if fig["multiplicity"] != mult_def:
+            dd.append(f"multiplicity {fig['multiplicity']} != definition {mult_def}")
+        if dd:
+            fields = sorted({x.split(":")[0].split(".")[-1].split(" ")[0] for x in dd})
+            bad.append(("figures-differ-from-definition", "; ".join(dd[:6]), {"fields": fields}))
+    except Exception as e:
+        bad.append(("definition-oracle-raised", f"{type(e).__name__}: {e}", {}))
     # running trackers vs forced recomputation on the same tree
     snap2 = copy.deepcopy(tree)
     try:
